@@ -1,5 +1,6 @@
 (* Extraction of the executable models (ExtrOcamlBasic directives only). *)
 Require Extraction.
 Require Import ExtrOcamlBasic.
-From DV Require Import Proc GenProc.
-Extraction "vmodel_ext.ml" Proc.exec Proc.init Proc.results GenProc.code_params Proc.mkParams.
+From DV Require Import Proc GenProc Blame.
+Separate Extraction Proc.exec Proc.init Proc.results GenProc.code_params Proc.mkParams
+  Blame.run Blame.init Blame.specb.
